@@ -204,6 +204,11 @@ def gen_world(rng, n_inputs=None, n_formulas=None, sheets=None, names=True,
                 return rng.choice(cands[-4:])
             return rng.choice(cands)
         a_, b_, c_ = pick(), pick(), pick()
+        if rng.random() < 0.08:
+            # reference to a cell that is stored nowhere (reads as blank)
+            c_ = f'{rng.choice(sheet_list)}!Z9'
+            if rng.random() < 0.5:
+                a_, c_ = c_, a_
         used = []
         use_range = rng.random() < 0.4
         rng_ref = None
